@@ -387,4 +387,18 @@ theorem propagation_moves_division_behind_call_refuted :
       ¬ Propagate.SafeBlock Propagate.divisionBehindCall :=
   ⟨Propagate.division_behind_call_before, Propagate.division_behind_call_after, Propagate.division_behind_call_not_safe⟩
 
+/-- REFUTED for the code as it is (known finding `declaration-inside-expression`): on
+    `v0 = (char) p10; v1 = p10 + 1; v2 = v1 * 2; v3 = v0 + 1; v4 = v0 - v3; v5 = v4 + v2; return v5` (every register
+    assigned once, no invoke, no division) the model of `register_propagation` deletes `v0 = (char) p10` although the
+    block it leaves, `return (((char) p10) - (v0 + 1)) + ((p10 + 1) * 2)`, still reads `v0`: the result depends on what
+    `v0` held on entry (15 before the pass, 9 after it for `p10 = 7`, `v0 = 13`); the Writer then prints the declaration
+    of `v0` inside the expression.  So "every register is assigned once" does not imply `SafeBlock`. -/
+theorem propagation_deletes_used_definition_refuted :
+    (Propagate.propagate Propagate.usedDefinitionDeleted).stmts.length = 1 ∧
+      Propagate.usedDefinitionDeleted.run Propagate.javaSem Propagate.env7 = .ret 15 [] ∧
+      (Propagate.propagate Propagate.usedDefinitionDeleted).run Propagate.javaSem Propagate.env7 = .ret 9 [] ∧
+      ¬ Propagate.SafeBlock Propagate.usedDefinitionDeleted :=
+  ⟨by rw [Propagate.used_definition_deleted_output]; rfl, Propagate.used_definition_deleted_before,
+   Propagate.used_definition_deleted_after, Propagate.used_definition_deleted_not_safe⟩
+
 end AgVerif.C21
